@@ -20,6 +20,9 @@ use crate::MAX_PACKET_WINDOW_SIZE;
 use crate::PROTOCOL_VERSION;
 use crate::udp_frame_sink::UdpFrameSink;
 
+#[cfg(uflow_verif)]
+use crate::verif::rand;
+
 mod event_queue;
 mod remote_client;
 
